@@ -92,7 +92,7 @@ func (r *Receiver) Receive(m Message, from uint16) {
 			return
 		}
 		r.Logger.Debugf("Got ack {sender: %d, digest: %s, round: %d} from %d",
-			sender, hex.EncodeToString(digest[:8]), msgRound, from)
+			sender, shortHex(string(digest)), msgRound, from)
 		r.registerMsg(msgReception{
 			digest:   string(digest),
 			msgRound: msgRound,
@@ -117,7 +117,7 @@ func (r *Receiver) Receive(m Message, from uint16) {
 	r.BroadcastAck(reception.digest, reception.sender, reception.msgRound)
 
 	r.Logger.Debugf("Got broadcast of round %d with digest %s from %d, broadcasting its digest",
-		reception.msgRound, hex.EncodeToString([]byte(reception.digest[:8])), from)
+		reception.msgRound, shortHex(reception.digest), from)
 }
 
 func (r *Receiver) initIfNeeded() {
@@ -139,7 +139,7 @@ func (r *Receiver) registerMsg(ack msgReception, from uint16, msg Message) {
 	st := senderAndRound{s: ack.sender, r: ack.msgRound}
 	if savedDigest, exists := r.receivedRoundFromSender[st]; !exists {
 		r.Logger.Debugf("Registering  %s {sender: %d, digest: %s, round: %d} %s",
-			msgOrAck, ack.sender, hex.EncodeToString([]byte(ack.digest[:8])), ack.msgRound, receivedFrom)
+			msgOrAck, ack.sender, shortHex(ack.digest), ack.msgRound, receivedFrom)
 		r.receivedRoundFromSender[st] = ack.digest
 	} else if savedDigest != ack.digest {
 		r.Logger.Debugf("Detected conflicting digests for {sender: %d, round: %d}: %s vs %s",
@@ -163,10 +163,18 @@ func (r *Receiver) registerMsg(ack msgReception, from uint16, msg Message) {
 	if len(r.reception[ack].idSet) == r.N-1 && r.reception[ack].m != nil && !r.reception[ack].delivered {
 		r.reception[ack].delivered = true
 		r.Logger.Debugf("Collected enough acknowledgements (from %v) on {sender: %d, digest: %s, round: %d}",
-			r.reception[ack].idSet, ack.sender, hex.EncodeToString([]byte(ack.digest[:8])), ack.msgRound)
+			r.reception[ack].idSet, ack.sender, shortHex(ack.digest), ack.msgRound)
 		r.ForwardToBackend(r.reception[ack].m, ack.sender)
 	} else {
 		r.Logger.Debugf("%d more acknowledgements on  {sender: %d, digest: %s, round: %d} are expected",
-			r.N-1-len(r.reception[ack].idSet), ack.sender, hex.EncodeToString([]byte(ack.digest[:8])), ack.msgRound)
+			r.N-1-len(r.reception[ack].idSet), ack.sender, shortHex(ack.digest), ack.msgRound)
 	}
+}
+
+// shortHex returns a short hex prefix of the given digest for logging, whatever its length.
+func shortHex(digest string) string {
+	if len(digest) > 8 {
+		digest = digest[:8]
+	}
+	return hex.EncodeToString([]byte(digest))
 }
